@@ -183,7 +183,11 @@ def run_case(ctx, case, model=True):
         if case["api"] == "all":
             sys_.set_bus_tie_status_all(table)
         else:
-            sys_.set_bus_tie_status([(i + 1, r) for i, r in enumerate(rows) if len(r) == n or not partial])
+            # a breaker that is not operated keeps one value: handed over in the same call as the operated ones on every second case
+            # (D92: the setter compared every length with that of the first tuple), left at its default on the others
+            together = partial and case.get("idx", 0) % 2 == 0
+            core.axis("constant_breakers", "in the same call" if together else ("left alone" if partial else "none"))
+            sys_.set_bus_tie_status([(i + 1, r) for i, r in enumerate(rows) if len(r) == n or not partial or together])
     if ends:
         ctx.count("status_dtype", case.get("dtype", "bool"))
         try:
